@@ -11,6 +11,7 @@
 (* Step(ev, ts, devs) is one event of a history: [out, ts, opaque].  Variable-free.     *)
 EXTENDS JsVal, Str
 JS == INSTANCE JsString
+JA == INSTANCE JsArray
 
 Kinds == <<"Int8Array", "Uint8Array", "Uint8ClampedArray", "Int16Array", "Uint16Array",
            "Int32Array", "Uint32Array", "Float32Array", "Float64Array">>
@@ -156,12 +157,13 @@ NewPriv(ts, kd, n) ==
 LastView(ts) == ts.views[Len(ts.views)]
 
 \* ---- number -> text for join / toString ------------------------------------------------------------------
-NumTextOK(w) == JS!NumTextSupported(w)
+NumTextOK(w) == JA!NumTextOK(w)          \* NaN, infinities, small integers, n + 0.5
 \* Dev_TAToString: Python str() of the stored value: floats print as 1.0 / nan / inf / -0.0
 PyFloatText(w) == IF WIsNaN(w) THEN U("nan") ELSE IF WIsInf(w) THEN (IF WSign(w) = 1 THEN U("-inf") ELSE U("inf"))
-                  ELSE IF WIsZero(w) /\ WSign(w) = 1 THEN U("-0.0") ELSE JS!NumText(w) \o U(".0")
+                  ELSE IF WIsZero(w) /\ WSign(w) = 1 THEN U("-0.0")
+                  ELSE IF JA!IsHalfW(w) THEN JA!HalfText(w) ELSE JS!NumText(w) \o U(".0")
 ElemText(kd, w, devs) == IF "Dev_TAToString" \in devs /\ kd \in {"Float32Array", "Float64Array"} THEN PyFloatText(w)
-                         ELSE JS!NumText(w)
+                         ELSE JA!NumTextX(w)
 
 \* ---- events ------------------------------------------------------------------------------------------------
 \* ToIndex on the grids used here
@@ -199,7 +201,13 @@ NewView(ts, kd, b, a, devs) ==
              \/ (~hasLen /\ (bl % sz # 0 \/ off > bl))
              \/ (hasLen /\ off + ToIndex(a[2]) * sz > bl)
       n == IF hasLen THEN ToIndex(a[2]) ELSE (bl - off) \div sz
-  IN IF bad THEN [Res(ErrOut("RangeError"), ts) EXCEPT !.opaque = IF "Dev_TACtorArgs" \in devs THEN "Dev_TACtorArgs" ELSE ""]
+      \* as-is: no validation; the constructor reads every element once: a float kind fails in struct.unpack on a short slice
+      asLen == IF hasLen THEN ToIndex(a[2]) ELSE IF off > bl THEN 0 ELSE (bl - off) \div sz
+      asOff == IF Len(a) >= 1 THEN WTruncClamp(ToNumW(a[1])) ELSE 0
+  IN IF bad /\ "Dev_TACtorArgs" \in devs /\ kd \in {"Float32Array", "Float64Array"} /\ asLen >= 1 /\ (asOff < 0 \/ asOff + asLen * sz > bl)
+        /\ \A i \in 1..Len(a) : IntErr(a[i]) = ""
+     THEN Res(HostOut("error"), ts)
+     ELSE IF bad THEN [Res(ErrOut("RangeError"), ts) EXCEPT !.opaque = IF "Dev_TACtorArgs" \in devs THEN "Dev_TACtorArgs" ELSE ""]
      ELSE Res(ValOut(Undef), [ts EXCEPT !.views = Append(@, [kind |-> kd, buf |-> b, off |-> off, len |-> n, priv |-> FALSE])])
 \* v[i] = x   (i a non-negative integer; outside the array: ignored)
 Write(ts, vi, i, x, devs) ==
@@ -254,13 +262,13 @@ Subarray(ts, vi, a, devs) ==
 \* v.join(sep?) / v.toString()
 JoinM(ts, vi, a, devs) ==
   LET v == ts.views[vi]
-      sep == IF Len(a) = 0 \/ IsUndef(a[1]) THEN <<44>> ELSE JS!ToStrU(a[1])
+      sep == IF Len(a) = 0 \/ (IsUndef(a[1]) /\ "Dev_JoinSep" \notin devs) THEN <<44>> ELSE JS!ToStrU(a[1])
       txt == Flatten([i \in 1..(2 * v.len - 1) |-> IF i % 2 = 0 THEN sep ELSE ElemText(v.kind, ElemW(ts, v, (i + 1) \div 2 - 1), devs)])
   IN Res(ValOut(VStr(txt)), ts)
 
 \* ev = [op, kind, vi (view / buffer id), i, x, a (argument values), src]
 Step(ev, ts, devs) ==
-  IF ev.op \in {"write", "set", "subarray", "join", "len"} /\ ev.vi > Len(ts.views) THEN Res(SkipOut, ts)
+  IF ev.op \in {"write", "set", "subarray", "join", "tostr", "len"} /\ ev.vi > Len(ts.views) THEN Res(SkipOut, ts)
   ELSE IF ev.op = "view" /\ ev.vi > Len(ts.bufs) THEN Res(SkipOut, ts)
   ELSE IF ev.op = "set" /\ ev.src.t = "view" /\ ev.src.id > Len(ts.views) THEN Res(SkipOut, ts)
   ELSE CASE ev.op = "newlen" -> NewLen(ts, ev.kind, ev.a, devs)
@@ -271,6 +279,7 @@ Step(ev, ts, devs) ==
          [] ev.op = "set" -> SetM(ts, ev.vi, ev.src, ev.a, devs)
          [] ev.op = "subarray" -> Subarray(ts, ev.vi, ev.a, devs)
          [] ev.op = "join" -> JoinM(ts, ev.vi, ev.a, devs)
+         [] ev.op = "tostr" -> JoinM(ts, ev.vi, <<>>, devs)
          [] ev.op = "len" -> Res(ValOut(VInt(ts.views[ev.vi].len)), ts)
 
 \* deviations a given event can reach (the judge tries the subsets)
@@ -281,7 +290,7 @@ Relevant(ev) ==
     [] ev.op = "write" -> {"Dev_TACoerceNonNumber", "Dev_TANonFinite"}
     [] ev.op = "set" -> {"Dev_TACoerceNonNumber", "Dev_TANonFinite", "Dev_TASetRange"} \cup (IF ev.src.t = "view" THEN {"Dev_TASetOverlap"} ELSE {})
     [] ev.op = "subarray" -> {"Dev_IntArg", "Dev_TASubarrayCopy"}
-    [] ev.op = "join" -> {"Dev_TAToString"}
+    [] ev.op \in {"join", "tostr"} -> {"Dev_TAToString"} \cup (IF Len(ev.a) >= 1 /\ IsUndef(ev.a[1]) THEN {"Dev_JoinSep"} ELSE {})
     [] OTHER -> {}
 
 \* is the event inside the fragment this module specifies
@@ -293,6 +302,7 @@ EvOK(ev, ts) ==
     [] ev.op = "write" -> ValOK(ev.x)
     [] ev.op = "set" -> (ev.src.t = "arr" => \A i \in 1..Len(ev.src.vals) : ValOK(ev.src.vals[i])) /\ \A i \in 1..Len(ev.a) : ValOK(ev.a[i])
     [] ev.op = "subarray" -> \A i \in 1..Len(ev.a) : ValOK(ev.a[i])
-    [] ev.op = "join" -> (Len(ev.a) >= 1 => JS!ToStrSupported(ev.a[1]))
+    [] ev.op \in {"join", "tostr"} -> /\ (Len(ev.a) >= 1 => JS!ToStrSupported(ev.a[1]))
+                         /\ (ev.vi <= Len(ts.views) => \A i \in 1..ts.views[ev.vi].len : NumTextOK(ElemW(ts, ts.views[ev.vi], i - 1)))
     [] OTHER -> TRUE
 =============================================================================
